@@ -105,6 +105,7 @@ const simOpYieldCap = 4 * maxBaselineYields
 // ---- planning ----
 
 type Tier struct {
+	Many       map[string]int // rounds of many-task (9-24 tasks) focused runs per family
 	PairRounds int            // rounds over all pairs of "sec" entries
 	Extra      map[string]int // additional focused rounds for small families that the property names explicitly
 	Rounds     int            // focused private rounds over the whole catalogue
@@ -118,8 +119,8 @@ type Tier struct {
 }
 
 var Tiers = map[string]Tier{
-	"quick":    {Name: "quick", PairRounds: 1, Extra: map[string]int{"sec": 12, "roundtrip": 8, "hist": 4, "fn": 4}, Rounds: 1, Reps: 6, MaxTasks: 8, Faults: true, ChunkSize: 1, NShared: 24, NRecycle: 24},
-	"thorough": {Name: "thorough", PairRounds: 6, Extra: map[string]int{"sec": 120, "roundtrip": 40, "hist": 20, "fn": 8, "accessors": 4}, Rounds: 4, Reps: 8, MaxTasks: 64, Faults: true, ChunkSize: 1, NShared: 96, NRecycle: 96},
+	"quick":    {Name: "quick", Many: map[string]int{"sec": 2, "roundtrip": 1, "hist": 1}, PairRounds: 1, Extra: map[string]int{"sec": 12, "roundtrip": 8, "hist": 4, "fn": 4}, Rounds: 1, Reps: 6, MaxTasks: 8, Faults: true, ChunkSize: 1, NShared: 24, NRecycle: 24},
+	"thorough": {Name: "thorough", Many: map[string]int{"sec": 12, "roundtrip": 4, "hist": 2, "fn": 1, "accessors": 1}, PairRounds: 6, Extra: map[string]int{"sec": 120, "roundtrip": 40, "hist": 20, "fn": 8, "accessors": 4}, Rounds: 4, Reps: 8, MaxTasks: 64, Faults: true, ChunkSize: 1, NShared: 96, NRecycle: 96},
 }
 
 // NumFocused is the number of focused runs of a tier (they come first).
@@ -188,6 +189,11 @@ func FocusGroups(t Tier) [][2]int {
 // a MAC, NEA2 next to NIA2, ...). Encoded in the focus list as pairBase + a*4096 + b.
 const pairBase = 1 << 24
 
+// many-task runs: one entry, 9-24 tasks (slot pools, rings and sharded caches only
+// misbehave when more callers are inside the library than they have slots).
+// Encoded as manyBase + entry index.
+const manyBase = 1 << 25
+
 var focusCache = map[string][]int{}
 
 // focusList: catalogue entry index of every focused private run, in order:
@@ -224,11 +230,23 @@ func focusList(t Tier) []int {
 			}
 		}
 	}
+	for _, fam := range PrivateFams {
+		for r := 0; r < t.Many[fam]; r++ {
+			for i := range Cat.Entries {
+				if Cat.Entries[i].Fam == fam {
+					l = append(l, manyBase+i)
+				}
+			}
+		}
+	}
 	focusCache[t.Name] = l
 	return l
 }
 
 func focusEntries(code int) []OpSpec {
+	if code >= manyBase {
+		return Cat.Entries[code-manyBase : code-manyBase+1]
+	}
 	if code >= pairBase {
 		c := code - pairBase
 		return []OpSpec{Cat.Entries[c/4096], Cat.Entries[c%4096]}
@@ -286,10 +304,16 @@ func PlanRun(seed, index uint64, tierName string) *Plan {
 		chunk := focusEntries(fl[index])
 		sd := newSeedDraw(r, []int{45, 70, 85}[r.Intn(3)])
 		ntask := 2 + r.Intn(3)
+		many := fl[index] >= manyBase
+		if many {
+			ntask = 9 + r.Intn(16)
+		}
 		// cheap operations are repeated more often: about 1500 yields per task, at
 		// least Reps and at most 10 x Reps calls (costs come from the probe step)
 		reps := t.Reps
-		if fl[index] >= pairBase {
+		if many {
+			reps = 2
+		} else if fl[index] >= pairBase {
 			reps = t.Reps
 		} else if fl[index] < len(Cat.Cost) && Cat.Cost[fl[index]] > 0 {
 			cost := Cat.Cost[fl[index]]
